@@ -74,42 +74,53 @@ def proof_gate(pid, tier):
         return False, len(names), 0, detail
     hits = audit_sources()
     detail["audit"] = hits
-    pfile = os.path.join(COQ, "Props", pid + ".v")
-    if not os.path.exists(pfile):
-        detail["build"] = "missing " + pfile
-        return False, len(names), 0, detail
-    src = strip_comments(open(pfile).read())
-    tmpvo = os.path.join(workdir("gate-" + pid), pid + ".vo")
-    p = sh(["timeout", "600", "coqc", "-q", "-Q", ".", "Deltio", "-o", tmpvo, os.path.join("Props", pid + ".v")],
-           cwd=COQ, check=False)
-    if p.returncode != 0:
-        detail["build"] = p.stdout[-3000:]
-        return False, len(names), 0, detail
-    # Print Assumptions output: one block per command, in file order
-    blocks = re.split(r"(?=Closed under the global context|Axioms:)", p.stdout)
-    blocks = [b for b in blocks if b.startswith("Closed under") or b.startswith("Axioms:")]
-    printed = re.findall(r"Print Assumptions\s+([A-Za-z0-9_']+)\s*\.", src)
+    pf_path = os.path.join(ROOT, "lib", "propfiles.json")
+    pfiles = json.load(open(pf_path)).get(pid) if os.path.exists(pf_path) else None
+    stems = [e["file"] for e in pfiles] if pfiles else [pid]
     discharged = 0
+    seen = set()
+    for stem in stems:
+        pfile = os.path.join(COQ, "Props", stem + ".v")
+        if not os.path.exists(pfile):
+            detail["build"] = "missing " + pfile
+            return False, len(names), 0, detail
+        src = strip_comments(open(pfile).read())
+        tmpvo = os.path.join(workdir("gate-" + pid), stem + ".vo")
+        p = sh(["timeout", "600", "coqc", "-q", "-Q", ".", "Deltio", "-o", tmpvo, os.path.join("Props", stem + ".v")],
+               cwd=COQ, check=False)
+        if p.returncode != 0:
+            detail["build"] = p.stdout[-3000:]
+            return False, len(names), 0, detail
+        # Print Assumptions output: one block per command, in file order
+        blocks = re.split(r"(?=Closed under the global context|Axioms:)", p.stdout)
+        blocks = [b for b in blocks if b.startswith("Closed under") or b.startswith("Axioms:")]
+        printed = re.findall(r"Print Assumptions\s+([A-Za-z0-9_']+)\s*\.", src)
+        for n in names:
+            if n in seen or not re.search(r"\b(Theorem|Lemma|Corollary)\s+%s\b" % re.escape(n), src):
+                continue
+            seen.add(n)
+            st = {"stated": True, "assumptions": None, "file": "Props/%s.v" % stem}
+            if n in printed and printed.index(n) < len(blocks):
+                b = blocks[printed.index(n)]
+                if b.startswith("Closed under"):
+                    st["assumptions"] = "closed"
+                else:
+                    axs = re.findall(r"^([A-Za-z0-9_.']+)\s*:", b, re.M)
+                    st["assumptions"] = axs
+            good = (st["assumptions"] == "closed" or
+                    (isinstance(st["assumptions"], list) and set(st["assumptions"]) <= ALLOWED_AXIOMS))
+            st["ok"] = good
+            detail["theorems"][n] = st
+            if good:
+                discharged += 1
     for n in names:
-        st = {"stated": bool(re.search(r"\b(Theorem|Lemma|Corollary)\s+%s\b" % re.escape(n), src)),
-              "assumptions": None}
-        if n in printed and printed.index(n) < len(blocks):
-            b = blocks[printed.index(n)]
-            if b.startswith("Closed under"):
-                st["assumptions"] = "closed"
-            else:
-                axs = re.findall(r"^([A-Za-z0-9_.']+)\s*:", b, re.M)
-                st["assumptions"] = axs
-        good = st["stated"] and (st["assumptions"] == "closed" or
-                                 (isinstance(st["assumptions"], list) and set(st["assumptions"]) <= ALLOWED_AXIOMS))
-        st["ok"] = good
-        detail["theorems"][n] = st
-        if good:
-            discharged += 1
+        if n not in seen:
+            detail["theorems"][n] = {"stated": False, "assumptions": None, "ok": False}
     ok = discharged == len(names) and not hits
     if tier == "thorough" and ok:
         t0 = time.time()
-        q = sh("timeout 1500 coqchk -silent -o -Q . Deltio Deltio.Props.%s" % pid, cwd=COQ, check=False)
+        q = sh("timeout 2400 coqchk -silent -o -Q . Deltio %s" % " ".join("Deltio.Props." + x for x in stems), cwd=COQ,
+               check=False)
         detail["coqchk"] = {"rc": q.returncode, "tail": q.stdout[-1500:], "wall_s": round(time.time() - t0, 1)}
         if q.returncode != 0:
             ok = False
